@@ -12,7 +12,7 @@ TECH = "deterministic simulation with fault injection"
 CHECKS = {
  "C01": dict(cat="exploration", sec="5 HashMgrSim",
    text="Seeded search over client interleavings, segmentations, flush placement, context reuse and all 28 (algorithm, family) pairs; every COMPLETE hand-back is compared with an independent reference hash of the accepted segments. Sampling of histories, not proof.",
-   note="Reference hashes (written from the standards, vector-checked at start-up) are trusted; completed messages bounded (mostly <= 8 KiB, rarely 1 MiB; one run in 12 also keeps a never-finished 2^30..2^32-1 byte segment in flight), <= 330 ops per run.",
+   note="Reference hashes (written from the standards, vector-checked at start-up) are trusted; completed messages bounded (mostly <= 8 KiB, rarely 1 MiB; one run in 12 also keeps a never-finished 2^30..2^32-1 byte segment in flight), <= 330 ops per run. Thorough adds 28 endurance runs (one long-lived manager per pair, 20-36 GiB through the flush path).",
    tech=TECH + ": HashMgrSim, reference-model oracle per completed job"),
  "C06": dict(cat="exploration", sec="5 HashMgrSim",
    text="Conservation/drain invariants evaluated after every submit/flush of every simulated history (exactly-once hand-back, never PROCESSING, capacity <= lanes, flush NULL iff empty, drain liveness bounded in calls, user_data and buffers untouched).",
@@ -39,7 +39,7 @@ CHECKS = {
    note="MurmurHash3 reference checked against published vectors at start-up.",
    tech=TECH + ": StreamSim, two reference models at finalize"),
  "C08": dict(cat="exploration", sec="5 cross-cutting monitors",
-   text="Memory-map monitor over a mixed batch of all workloads (hash managers on 28 pairs, mh/murmur/rolling/GCM streaming, one-shot AES client on every family): every buffer end-flush/start-flush/mid-slot against PROT_NONE pages, canaries around every range, checksums of inputs, key data and bystander objects; SIGSEGV/SIGBUS mapped to (buffer, offset, read/write).",
+   text="Memory-map monitor over a mixed batch of all workloads (hash managers on 28 pairs, mh/murmur/rolling/GCM streaming, one-shot AES client on every family): every buffer end-flush/start-flush/mid-slot against PROT_NONE pages, canaries around every range, checksums of inputs, key data and bystander objects; SIGSEGV/SIGBUS mapped to (buffer, offset, read/write). Half of the runs place a share of their buffers across, on or up to a 4 GiB-aligned address; 12 runs per quick batch are huge stream cases (updates / run calls / GCM calls of 2^31 .. 2^32+ bytes through aliased windows).",
    note="Guard pages detect accesses crossing into the neighbouring page from the flush side; the other side is covered by canaries (writes) and by the opposite placement in other runs (reads). Documented alignment rules honoured.",
    tech=TECH + ": simulated memory map (guard pages, canaries, checksums) as monitor in all simulations"),
  "C14": dict(cat="exploration", sec="5 cross-cutting monitors",
@@ -48,7 +48,7 @@ CHECKS = {
    tech=TECH + ": register-file/dead-stack capture by the call trampoline, secret scan as monitor"),
  "C15": dict(cat="exploration", sec="5 HashMgrSim long-stream workload",
    text="Long clients stream a periodic pattern through a 4 GiB aliased window under seeded segmentations (segments up to 2^32-1 bytes, small unaligned bursts around 2^29, 2^32, 2^32+2^29) interleaved with short clients on every (algorithm, family) pair; digest compared with a streaming reference, total_length with the sum of segments.",
-   note="Quick: all 28 pairs cross 2^29, two seed-chosen pairs cross 2^32; thorough: all pairs cross 2^32+2^29. One reference digest per (algorithm, length) per process.",
+   note="Quick: all 28 pairs cross 2^29 and 2^32 with real data (reference states cached on disk by setup); thorough: all pairs also cross 2^32+2^29. Totals near 2^33..2^60 are reached by a clock jump of ctx->total_length (a whole number of blocks added to the library's counter and to the model's length while the context is idle; 140 runs per quick batch); a run in which the library's reported total does not follow the jump is discarded, not judged.",
    tech=TECH + ": HashMgrSim long-stream workload, reference-model oracle"),
  "C18": dict(cat="exploration", sec="5 SharedStateSim",
    text="Three deterministic single-thread mechanisms: (a) the archive's entire writable static storage (one page-aligned linked section) is write-protected before or after binding while hash-manager, streaming and one-shot workloads and real first calls run; only stores into <entry>_dispatched slots / self_test_status are admitted and logged by writer, any other store is reported with its symbol; (b) 2-6 coroutine tasks race first calls of the same or different dispatched entry points at the simulated cpuid/xgetbv yield points: results, final bindings and every intermediate slot value are checked; (c) two tasks with separate environments run workloads interleaved at call granularity and must reproduce their solo observable histories.",
